@@ -330,6 +330,8 @@ def owner_of(pid_units, meta, f):
         kind = "requires"
     if kind == "assert":
         kind = "lemma"
+    if kind == "requires" and (f.get("callee_clause") or "").startswith("prelude:"):
+        kind = "lemma"      # precondition of a ghost lemma called from a proof hint: part of the semantic argument
     return clause_owners(meta, kind, tagsrc)
 
 
